@@ -13,11 +13,11 @@ AMP_CAP = 1e4   # cyclic solves whose Sherman-Morrison error scale exceeds AMP_C
 
 
 def stages(tier):
-    """cases x reps systems per stage: quick 3000x8 + 400x4, thorough 50000x40 + 5000x10 (asan)."""
+    """cases x reps systems per stage: quick 3000x8 + 400x4 (asan), thorough 60000x50 + 5000x10 (asan)."""
     q = tier != "thorough"
     return [
-        Stage("solve", "p14_tridiag", "plain", {"quick": 3000, "thorough": 50000},
-              args={"reps": 8 if q else 40, "amp_cap": AMP_CAP}),
+        Stage("solve", "p14_tridiag", "plain", {"quick": 3000, "thorough": 60000},
+              args={"reps": 8 if q else 50, "amp_cap": AMP_CAP}),
         Stage("solve-asan", "p14_tridiag", "asan", {"quick": 400, "thorough": 5000},
               args={"reps": 4 if q else 10, "amp_cap": AMP_CAP}, offset=10000000),
     ]
@@ -30,20 +30,20 @@ STAGES = stages("quick")
 # unchanged tree (quick seeds 1..5, thorough seeds 1,2) are given with each threshold; every threshold is >= 100x above.
 THRESHOLDS = {
     # non-cyclic: ||Ax-b||inf / (||A||inf ||x||inf + ||b||inf); LDL^T of an SPD tridiagonal matrix is backward stable.
-    "tri_residual_norm": 1e-13,
+    "tri_residual_norm": 1e-13,       # observed <= 1.8e-16
     # non-cyclic, row by row: |Ax-b|_i / ((|A||x|)_i + |b_i|).  For SPD tridiagonal A, |L||D||L^T| = |A| (Higham, ASNA
     # Thm 9.12/9.14), so the factorisation is componentwise backward stable; this is the scale-invariant form of the same
     # statement and the one that still sees the small rows of a D A D scaled system.
-    "tri_residual_rowwise": 1e-13,
+    "tri_residual_rowwise": 1e-13,    # observed <= 3.0e-16
     # cyclic, row by row against the a-priori error scale S of a Sherman-Morrison solve (c14_ref.h: sm_scale), which is
     # (|A|+|B|)(|y|+|f||q|) + |b| + |u|(...) from long-double solves with B; S >= |A||x|+|b| and equals it up to the
     # logged factor amp when y and f q do not cancel.
-    "cyc_residual_sm": 1e-13,
+    "cyc_residual_sm": 1e-13,         # observed <= 1.8e-16
     # cyclic, normwise backward error ||Ax-b|| / (||A|| ||x|| + ||b||) divided by max(1, amp), amp = ||S|| / (||A|| ||x_ref|| + ||b||)
     # measured per solve; judged for amp <= AMP_CAP, solves beyond are counted (coverage.cyclic_solves_beyond_amp_cap).
-    "cyc_residual_norm": 1e-13,
+    "cyc_residual_norm": 1e-13,       # observed <= 1.5e-16 (raw backward error <= 1.1e-14 at amp <= 330)
     # DiagonalSolver: |d_i x_i - b_i| / (|d_i x_i| + |b_i|); one correctly rounded division gives <= 5.6e-17.
-    "diag_residual": 1e-14,
+    "diag_residual": 1e-14,           # observed 5.55e-17 (= u/2, attained)
     # same object, same right-hand side (directly after the factorising solve, or after solves with other right-hand
     # sides; temp storage poisoned with NaN / garbage / left-overs): the returned vectors are bit-identical.
     "repeat_identical": 0.5,
@@ -57,7 +57,7 @@ RULE = ("cases drawn from VERIF_SEED; a case fixes (cyclic?, n class in {2,3,4,5
         "d_i in 10^[-E,E], E=1..5 (random, ramp, powers of two); line matrices of the documented stencil on generated "
         "grids/geometries (circle lines cyclic, radial lines with Dirichlet end, R0 down to 1e-8); ill-conditioned (shifted "
         "periodic Laplacians, bare corner at the SPD boundary, pivot ratio down to 1e-9); a fixed list for n=2,3,4,5 incl. "
-        "n=2 sub-diagonal/corner overlap; DiagonalSolver. Right-hand sides: uniform, 1e-6..1e6, spikes, A*x, zero. "
+        "n=2 sub-diagonal/corner overlap and one strictly diagonally dominant 2x2 system scaled by 1e-10; DiagonalSolver. Right-hand sides: uniform, 1e-6..1e6, spikes, A*x, zero. "
         "signature = (cyclic, n class, generator, scaling decade = round(0.5*log10(max a_ii / min a_ii)) measured over the "
         "case); non-trivial = at least one system of the case with a non-zero sub-diagonal or corner element was solved")
 ASSUMPTIONS = [
@@ -72,12 +72,13 @@ TECHNIQUE = ("runtime monitor with a long-double residual oracle: generated SPD 
              "real SymmetricTridiagonalSolver / DiagonalSolver (first solve = in-place LDL^T, later solves = substitution only), "
              "A x - b is formed in long double from the original entries and scaled by computed magnitudes; repeated solves "
              "compared bit for bit; ASan/UBSan replay")
-LEVEL_TEXT = ("sampled executions judged by an oracle: 24 000 (quick) to 2 000 000 (thorough) generated systems, each with 1-4 "
+LEVEL_TEXT = ("sampled executions judged by an oracle: 25 600 (quick) to 3 050 000 (thorough) generated systems, each with 1-4 "
               "right-hand sides and 1-4 repeated solves; normwise and row-wise residuals against thresholds of 1e-13 "
-              "(observed <= 4e-16), bit-identity of repeated solves; a sanitizer build replays a subset")
+              "(observed <= 3e-16), bit-identity of repeated solves; a sanitizer build runs a further subset")
 LEVEL_NOTE = ("covers only generated inputs; backward errors below 1e-13 are invisible; cyclic systems are judged relative to "
-              "the inherent error scale of the Sherman-Morrison formula (observed excess <= ~100x, raw backward error observed "
-              "<= 4e-16); assertion aborts of the assert-enabled build are reported as crashes")
+              "the inherent error scale of the Sherman-Morrison formula (observed excess over |A||x|+|b| <= 330x, raw normwise "
+              "backward error observed <= 1.1e-14); assertion aborts of the assert-enabled build are reported as crashes with "
+              "the input class in the key")
 
 _TOTALS = ("systems", "solves", "resolves", "nontrivial_systems", "cyc_beyond_cap", "not_spd", "pivot_below_equals_tol")
 
